@@ -30,10 +30,25 @@ class Query:
         return self.solver().to_smt2()
 
 
-def solve(q, timeout_s=120):
+def solve(q, timeout_s=120, engine='z3'):
     t0 = time.time()
     if q.goal is False or any(a is False for a in q.assumptions):
         return {'name': q.name, 'kind': q.kind, 'result': 'unsat', 'time_s': 0.0, 'model': None, 'trivial': True}
+    if engine != 'z3':
+        r, dt = second_opinion(q, timeout_s, engine)
+        out = {'name': q.name, 'kind': q.kind, 'result': r if r in ('sat', 'unsat') else 'unknown', 'time_s': round(dt, 3), 'model': None}
+        if r not in ('sat', 'unsat'):
+            out['reason'] = r
+        if r == 'sat':
+            # need a model: ask z3 (same query)
+            rz = solve(q, timeout_s, 'z3')
+            if rz['result'] == 'sat':
+                out['model'] = rz['model']
+            elif rz['result'] == 'unsat':
+                out['result'], out['reason'] = 'unknown', f'{engine} says sat, z3 says unsat'
+            else:
+                out['result'], out['reason'] = 'unknown', f'{engine} says sat, z3 gives no model'
+        return out
     s = q.solver(timeout_s)
     r = s.check()
     dt = time.time() - t0
@@ -46,6 +61,7 @@ def solve(q, timeout_s=120):
 
 
 def second_opinion(q, timeout_s=120, which='cvc5'):
+    which = {'z3old': 'z3bin'}.get(which, which)
     """Re-decide the query with another solver from its SMT-LIB2 text.  Returns 'sat'/'unsat'/'unknown'/'error:...'."""
     if q.goal is False:
         return 'unsat', 0.0
